@@ -5,7 +5,9 @@
     - `commit()` counts the commits that really end a transaction and raises `Crash`
       (a BaseException, so none of the engine's `except Exception` paths run) at the armed one;
     - `execute()` calls a per-thread gate before a statement matching the armed predicate, which
-      lets the harness park a worker between two statements of one engine call.
+      lets the harness park a worker between two statements of one engine call;
+    - `commit()` calls the per-thread `CTL.commit_gates` entry (if any) before a commit that really ends a
+      transaction, so a worker can also be parked while it holds the write lock, before its COMMIT.
 * `Worker` is a dedicated thread with a mailbox: `worker.call(fn)` runs `fn` on that thread (the
   engine's SQLite connections are thread-local, so one Worker = one connection = one logical
   client) and returns/raises in the caller.  `worker.start_call(fn)` + `wait_parked_or_done()` +
@@ -31,6 +33,7 @@ class Ctl:
         self.dead = False
         self.total_commits = 0
         self.gates: dict[int, Callable[[str, Any], bool]] = {}   # thread ident -> predicate(sql, params)
+        self.commit_gates: dict[int, Callable[[], Any]] = {}     # thread ident -> called before a commit that really ends a transaction
         self.parked: dict[int, dict] = {}
 
     def arm_crash(self, k: int | None) -> None:
@@ -45,6 +48,9 @@ CTL = Ctl()
 class IConn(sqlite3.Connection):
     def commit(self):  # type: ignore[override]
         if self.in_transaction:
+            cg = CTL.commit_gates.get(threading.get_ident())
+            if cg is not None:
+                cg()
             if CTL.dead:
                 raise Crash("commit after death")
             if CTL.crash_at is not None:
